@@ -46,6 +46,8 @@ func c10Alphabet() []string {
 	for _, d := range c10Advances {
 		a = append(a, fmt.Sprintf("advance %d", int64(d)))
 	}
+	// a timer handle obtained once and kept by the application, also across Close and drop of its scope
+	a = append(a, "reckept sub.t 1")
 	a = append(a, "exec ok", "exec fail", "close sub")
 	return a
 }
@@ -148,6 +150,7 @@ func c10Exec(path histPath, alphabet []string) func(hist []int) (string, string,
 				}
 				return len(e.rec.Log)
 			}
+			optBkt := map[string]int64{} // samples recorded through a stopwatch after the histogram's scope was closed
 			doPass := func() (string, string) {
 				if path == pathSnapshot {
 					// no reporter: check the pending values through a snapshot instead
@@ -162,6 +165,9 @@ func c10Exec(path histPath, alphabet []string) func(hist []int) (string, string,
 						return "histogram-missing-from-snapshot", ""
 					}
 					for u, c := range hs.Durations() {
+						if k := fmt.Sprint(int64(u)); c > e.pendBkt[k] && c <= e.pendBkt[k]+optBkt[k] {
+							continue // (a snapshot is cumulative: the optional samples stay optional)
+						}
 						if c != e.pendBkt[fmt.Sprint(int64(u))] {
 							return "stopwatch-histogram-bucket-wrong", fmt.Sprintf("snapshot bucket %d has %d, model %d", int64(u), c, e.pendBkt[fmt.Sprint(int64(u))])
 						}
@@ -204,6 +210,10 @@ func c10Exec(path histPath, alphabet []string) func(hist []int) (string, string,
 				}
 				for _, u := range huppers {
 					k := fmt.Sprint(int64(u))
+					if extra := gotB[k] - e.pendBkt[k]; extra > 0 && extra <= optBkt[k] {
+						optBkt[k] -= extra
+						continue
+					}
 					if gotB[k] != e.pendBkt[k] {
 						return "stopwatch-histogram-bucket-wrong", fmt.Sprintf("pass delivered %d samples for bucket <=%s, model %d", gotB[k], k, e.pendBkt[k])
 					}
@@ -212,7 +222,14 @@ func c10Exec(path histPath, alphabet []string) func(hist []int) (string, string,
 				e.pendBkt = map[string]int64{}
 				return "", ""
 			}
-			closedSub := false
+			closedSub, droppedSub := false, false
+			optBkt = map[string]int64{}
+			// (obtained before the history starts, so that "close, pass, record through the kept handle" is three steps)
+			kept := map[string]tally.Timer{}
+			{
+				sc, short, _, _ := ident("sub.t")
+				kept["sub.t"] = sc.Timer(short)
+			}
 			for _, op := range hist {
 				name := alphabet[op]
 				var which string
@@ -223,6 +240,18 @@ func c10Exec(path histPath, alphabet []string) func(hist []int) (string, string,
 					sc, short, full, tg := ident(which)
 					m := mark()
 					sc.Timer(short).Record(time.Duration(d))
+					steps++
+					if c, dd := expectTimer(m, full, tg, time.Duration(d), name); c != "" {
+						return c, dd
+					}
+				case len(name) > 8 && name[:8] == "reckept ":
+					fmt.Sscanf(name, "reckept %s %d", &which, &d)
+					sc, short, full, tg := ident(which)
+					if kept[which] == nil {
+						kept[which] = sc.Timer(short)
+					}
+					m := mark()
+					kept[which].Record(time.Duration(d))
 					steps++
 					if c, dd := expectTimer(m, full, tg, time.Duration(d), name); c != "" {
 						return c, dd
@@ -240,6 +269,7 @@ func c10Exec(path histPath, alphabet []string) func(hist []int) (string, string,
 					if c, dd := doPass(); c != "" {
 						return c, dd
 					}
+					droppedSub = droppedSub || closedSub
 				case name == "start timer":
 					e.sws = append(e.sws, e.sub.Timer("u").Start())
 					e.swT0 = append(e.swT0, e.now)
@@ -260,7 +290,10 @@ func c10Exec(path histPath, alphabet []string) func(hist []int) (string, string,
 					m := mark()
 					sw.Stop()
 					steps++
-					if isH {
+					if isH && closedSub {
+						// stopped after the histogram's scope was closed: recorded after Close, delivered or not
+						optBkt[fmt.Sprint(int64(huppers[refDurationBucket(huppers, el)]))]++
+					} else if isH {
 						e.pendBkt[fmt.Sprint(int64(huppers[refDurationBucket(huppers, el)]))]++
 						if e.rec != nil {
 							for _, en := range e.rec.Log[m:] {
@@ -324,7 +357,7 @@ func c10Exec(path histPath, alphabet []string) func(hist []int) (string, string,
 				}
 			}
 			sortStrings(tkeys)
-			key = fmt.Sprint(closedSub, path, tkeys, e.pendCnt, e.pendBkt, nr, len(e.sws), e.swHis, func() []int64 {
+			key = fmt.Sprint(closedSub, droppedSub, path, tkeys, e.pendCnt, e.pendBkt, nr, len(e.sws), e.swHis, func() []int64 {
 				var out []int64
 				for _, t0 := range e.swT0 {
 					out = append(out, int64(e.now.Sub(t0)))
